@@ -491,7 +491,7 @@ func genOp(r *kit.Rng) string {
 	case 2:
 		key = "none"
 	}
-	switch r.Pick(55, 25, 6, 7, 7) {
+	switch r.Pick(60, 28, 4, 4, 4) {
 	case 1:
 		env = "fail"
 	case 2:
@@ -506,7 +506,7 @@ func genOp(r *kit.Rng) string {
 	switch {
 	case native:
 		bodies = []string{"ok", "gzip", "zstd", "readerr", "badgzip", "truncgzip", "badzstd", "garbage", "truncated", "oversize"}
-		weights = []int{60, 6, 6, 5, 4, 3, 4, 5, 5, 2}
+		weights = []int{120, 12, 12, 10, 8, 6, 8, 10, 10, 1}
 	case strings.HasPrefix(ep, "otlp-http"):
 		bodies = []string{"ok", "gzip", "zstd", "readerr", "badgzip", "truncgzip", "badzstd", "garbage", "truncated"}
 		weights = []int{62, 6, 6, 5, 4, 3, 4, 5, 5}
